@@ -52,13 +52,13 @@ REAL_VS_STUB = {
                                 'warnings.showwarning', 'all user callbacks', 'GC timing'],
 }
 EXPECTED_PROBES = ('cb:is_leaf', 'cb:flatten_func', 'cb:unflatten_func', 'cb:map_fn', 'cb:key.__hash__', 'cb:key.__lt__',
-                   'cb:meta.__ne__', 'cb:meta.__repr__', 'cb:showwarning', 'cb:meta.__getattr__', 't8:registration-failed-in-hook', 't9:completed', 't9:refused', 't10:observations', 't11:operations', 't12:operations', 'cb:meta.__getattribute__', 'stress:preemptive-run', 't3:pairing-op',
+                   'cb:meta.__ne__', 'cb:meta.__repr__', 'cb:showwarning', 'cb:meta.__getattr__', 't8:registration-failed-in-hook', 't9:completed', 't9:refused', 't10:observations', 't11:operations', 't12:operations', 't13:runs', 't13:address-reused', 'cb:meta.__getattribute__', 'stress:preemptive-run', 't3:pairing-op',
                    'lock:registry:acquire', 'lock:registry:contended', 'switch-inside-callback')
 # 'callback-entered-with-engine-lock-held' is reported as a counter; on a correct tree it stays 0 (it was 30 569 per
 # quick run before fix 414fcff)
 
 V = _C._verif if hasattr(_C, '_verif') else None
-TEMPLATES = ('T1', 'T2', 'T3', 'T4', 'T5', 'T6', 'T7', 'T8', 'T9', 'T10', 'T11', 'T12')
+TEMPLATES = ('T1', 'T2', 'T3', 'T4', 'T5', 'T6', 'T7', 'T8', 'T9', 'T10', 'T11', 'T12', 'T13')
 PKG_PREFIX = os.path.dirname(optree.__file__) + os.sep
 REGMOD = optree.registry
 
@@ -263,7 +263,7 @@ def run_job(job, io):
     REGMOD.__dict__['__REGISTRY_LOCK'] = old_lock
 
     for lab, n in sim.probes.items():
-        if lab.startswith(('cb:', 'lock:', 't3:', 't5:', 't8:', 't9:', 't10:', 't11:', 't12:')) or lab in ('callback-entered-with-engine-lock-held',):
+        if lab.startswith(('cb:', 'lock:', 't3:', 't5:', 't8:', 't9:', 't10:', 't11:', 't12:', 't13:')) or lab in ('callback-entered-with-engine-lock-held',):
             probes[lab] += n
     py_lines = sum(n for lab, n in sim.probes.items() if lab.startswith('py:'))
     probes['py-line-yield-points'] += py_lines
@@ -735,6 +735,84 @@ def tpl_T11(sim, tape, viol, keys, desc, cb, job):
 
     def cleanup():
         pass
+    return {'cleanup': cleanup}
+
+
+# -------------------------------------------------------------------------------------------------- T13
+def tpl_T13(sim, tape, viol, keys, desc, cb, job):
+    """What a class IS does not depend on WHICH THREAD asked about another class before.  Task B makes a class X; task A
+    classifies it; B drops X and collects it (the eviction of X's cache entry runs on B's thread), then makes classes of
+    the OPPOSITE kind until one is allocated at X's address; A classifies that class.  Gates (simulated locks) order the
+    phases; everything else is up to the scheduler.  Oracle: the definition (a namedtuple class is a namedtuple)."""
+    x_is_nt = bool(tape.draw(2, 't13-direction'))
+    g1, g2, g3 = SimLock(sim, 'gate1'), SimLock(sim, 'gate2'), SimLock(sim, 'gate3')
+    for g in (g1, g2, g3):
+        g.acquire()  # held by the controller; a task's release() opens the gate
+    box = {}
+    got = []
+
+    def mk(nt):
+        if nt:
+            return collections.namedtuple('T13NT', ['a', 'b'])
+        return type('T13Plain', (tuple,), {'__slots__': ()})
+
+    def ask(cls, nt):
+        inst = cls(1, 2) if nt else cls((1, 2))
+        return (len(optree.tree_leaves(inst)), optree.is_namedtuple(inst), optree.is_namedtuple_class(cls), optree.tree_structure(inst).num_nodes)
+
+    def task_b(task):
+        box['X'] = mk(x_is_nt)
+        g1.release()
+        g2.acquire()
+        address = id(box['X'])
+        del box['X']
+        gc.collect()  # the class (always in a reference cycle) dies here, on B's thread
+        keep = []
+        for _ in range(24):
+            cls = mk(not x_is_nt)
+            box['Y'] = cls  # whether or not the allocator hands the address out again, A asks about a class of the other kind:
+            if id(cls) == address:  # the recorded run is the same either way (replay must not depend on the allocator)
+                box['reused'] = True
+                break
+            keep.append(cls)
+        del keep
+        g3.release()
+
+    def task_a(task):
+        g1.acquire()
+        got.append(('X', x_is_nt, ask(box['X'], x_is_nt)))
+        g2.release()
+        g3.acquire()
+        cls = box.pop('Y')
+        got.append(('Y', not x_is_nt, ask(cls, not x_is_nt)))
+
+    set_policy(sim, tape, job)
+    sim.gc_rate = 0  # collections are explicit here: they decide on which thread the class dies
+    sim.spawn('a', task_a)
+    sim.spawn('b', task_b)
+    desc.update({'x_is_namedtuple': x_is_nt})
+    was = gc.isenabled()
+    gc.disable()
+    U.HOOK = cb
+    try:
+        sim.run()
+    finally:
+        U.HOOK = None
+        if was:
+            gc.enable()
+    if sim.deadlock is None and not sim.engine_blocks:
+        sim.probes['t13:runs'] += 1
+        if box.get('reused'):
+            sim.probes['t13:address-reused'] += 1
+        for which, nt, res in got:
+            want = (2, True, True, 3) if nt else (1, False, False, 1)
+            if res != want:
+                viol('not-sequential', 'T13:%s' % which, 'class %s (%s) asked on task A after another class lived at its address and died on task B: '
+                     '(leaves, is_namedtuple, is_namedtuple_class, nodes) = %r, by definition %r' % (which, 'namedtuple' if nt else 'plain tuple subclass', res, want))
+                break
+
+    def cleanup():
+        box.clear()
     return {'cleanup': cleanup}
 
 
